@@ -537,6 +537,17 @@ def arg_misuse(ctx, r):
     dflt = [x for x in q.walk(g["body"]) if x["k"] == "For" and "default_args" in q.show(x["e"])]
     only_empty = bool(dflt) and any(x["k"] == "If" and "is_none()" in q.show(x["c"]) and any(y["k"] == "Assign" for y in q.walk(x["t"])) for x in q.walk(dflt[0]["body"]))
     r.ob(only_empty, "resolve.rs:calculate_named_arg_order:default-overwrites", RES, g["l"], "a default value may only fill a slot that is still empty", sample="defaults fill empty slots only")
+    # the slot table has one slot per parameter the callee *declares*; positions come from the caller and from the default table: every subscript is bounds-tested
+    for x in q.walk(g["body"]):
+        if x["k"] == "Index" and q.show(x["e"]) == "reordered_args" and x["i"]["k"] != "Lit":
+            idx = q.show(x["i"]).lstrip("*")
+            guarded = any(c["k"] == "If" and any(y is x for y in q.walk(c["t"])) and f"{idx}<reordered_args.len()" in q.show(c["c"]).replace(" ", "").replace("*", "") for c in q.walk(g["body"]))
+            r.ob(guarded, f"resolve.rs:calculate_named_arg_order:reordered_args[{idx}]:unchecked-slot", RES, x["l"],
+                 f"`reordered_args[{q.show(x['i'])}]` is not bounds-tested: the table is sized from the callee's parameter count while `{idx}` comes from the call or from the default-value table (`fn f(a, a, b = 3)`; `f(1, 2)` indexed past the end)",
+                 sample=f"reordered_args[{idx}] under `{idx} < reordered_args.len()`")
+    nargs_src = [x for x in q.walk(q.find_fn(items, "update_function_arg_info")["body"]) if x["k"] == "Local" and q.pat_bindings(x["pat"]) == ["nargs"]] if q.find_fn(items, "update_function_arg_info") else []
+    r.ob(bool(nargs_src) and ".len()" in q.show(nargs_src[0]["init"]) and "required_args" not in q.show(nargs_src[0]["init"]), "resolve.rs:update_function_arg_info:nargs-from-distinct-names", RES, nargs_src[0]["l"] if nargs_src else g["l"],
+         "the number of argument slots must be the number of declared parameters, not a count of distinct names (two parameters may share a name)", sample="nargs = number of declared parameters")
     flat = any(x["k"] == "MethodCall" and x["m"] == "flatten" for x in q.walk(g["body"]))
     r.ob(flat, "resolve.rs:calculate_named_arg_order:slot-order", RES, g["l"], "the result must be read out in slot (declaration) order")
 
@@ -940,3 +951,62 @@ def emit_dead(ctx, r):
                         dead = None
     r.count("unconditional transfers emitted mid-sequence", n_transfer, 20, TB)
     r.count("emissions following a transfer", n_checked, 7, TB)
+
+
+def _dominating_stmts(fn_body, target):
+    """Statements that precede `target` in each enclosing block (source-order dominators within structured code)."""
+    out = []
+    for b in q.walk(fn_body):
+        if b["k"] == "Block":
+            for i, s in enumerate(b["stmts"]):
+                if any(y is target for y in q.walk(s)):
+                    out.extend(b["stmts"][:i])
+    return out
+
+
+@rule("UNWRAP-GUARD", ["C04", "C34"], "in the checker, a method looked up by name is unwrapped only where it must exist: in a prelude interface that declares it, or in an implementation already proven complete by a diverging output-type guard")
+def unwrap_guard(ctx, r):
+    from rules.prelude import abra, PRELUDE
+
+    items = ctx.file_items(TC)
+    pre = abra(ctx, r, PRELUDE)
+    if items is None or pre is None:
+        return
+    ifaces = {it[1]: {m[1] for m in it[2] if m[0] == "fn"} for it in pre if it[0] == "interface"}
+    n_decl = n_impl = 0
+    for f, _ in q.iter_items(items):
+        if f["k"] != "Fn" or f.get("body") is None:
+            continue
+        for x in q.walk(f["body"]):
+            if not (x["k"] == "MethodCall" and x["m"] in ("unwrap", "expect") and x["recv"]["k"] == "MethodCall" and x["recv"]["m"] == "get_method_by_name"):
+                continue
+            look = x["recv"]
+            recv = q.show(look["recv"])
+            lit = look["args"][0].get("v") if look["args"] and look["args"][0]["k"] == "Lit" else None
+            doms = _dominating_stmts(f["body"], x)
+            # where does the receiver come from?
+            origin = [s for s in doms if s["k"] == "Local" and recv in q.pat_bindings(s["pat"]) and s.get("init") is not None]
+            origin_txt = q.show(origin[-1]["init"]) if origin else ""
+            key = f"typecheck.rs:{f['name']}:{recv}.{lit}"
+            if "get_iface_decl" in origin_txt:
+                n_decl += 1
+                names = [y.get("v") for y in q.walk(origin[-1]["init"]) if y["k"] == "Lit" and y.get("t") == "str"]
+                iname = names[0].split(".")[-1] if names else None
+                r.ob(iname in ifaces and lit in ifaces[iname], key + ":not-declared-by-the-interface", TC, x["l"],
+                     f"{f['name']}: `{recv}.get_method_by_name(\"{lit}\").unwrap()` assumes interface {iname} of the prelude declares `{lit}`; it declares {sorted(ifaces.get(iname, []))}",
+                     sample=f"{f['name']}: prelude interface {iname} declares {lit}")
+            else:
+                n_impl += 1
+                guards = []
+                for s in doms:
+                    if s["k"] == "Local" and s.get("else") is not None and s.get("init") is not None and any(y["k"] == "MethodCall" and y["m"] == "get_output_type_of_iface_impl" for y in q.walk(s["init"])):
+                        els = s["else"]
+                        last = els["stmts"][-1] if els["k"] == "Block" and els["stmts"] else None
+                        le = last.get("e") if last is not None and last["k"] == "ExprStmt" else None
+                        if le is not None and le["k"] in ("Return", "Continue", "Break"):
+                            guards.append(s)
+                r.ob(bool(guards), key + ":implementation-not-known-complete", TC, x["l"],
+                     f"{f['name']}: `{recv}.get_method_by_name(\"{lit}\").unwrap()` on a user implementation is not preceded by a guard that leaves when the implementation's output types cannot be determined (`let Some(..) = ctx.get_output_type_of_iface_impl(..) else {{ return }}`): an unfinished `implement` block - ordinary while typing - panics the checker and the editor analysis",
+                     sample=f"{f['name']}: {recv}.{lit} unwrapped after a diverging completeness guard")
+    r.count("unwrapped method lookups in prelude interfaces", n_decl, 2, TC)
+    r.count("unwrapped method lookups in user implementations", n_impl, 4, TC)
